@@ -189,16 +189,31 @@ func propC16(c c16Case) (v hh.Verdict) {
 			}
 			src, sm := live[op.Src], models[op.Src]
 			var args []any
-			if op.AsMap {
+			switch {
+			case op.AsMap && len(op.Keys) > 1 && len(op.False) > 0 && op.False[0] == "+mixed":
+				// first key as a string, the rest in a map that ALSO lists the first key (and others) as false:
+				// false entries are documented to be ignored, they do not cancel a selection made elsewhere
+				args = append(args, op.Keys[0])
+				mm := map[string]bool{op.Keys[0]: false}
+				for _, k := range op.Keys[1:] {
+					mm[k] = true
+				}
+				for _, k := range op.False[1:] {
+					mm[k] = false
+				}
+				args = append(args, mm)
+			case op.AsMap:
 				mm := map[string]bool{}
 				for _, k := range op.Keys {
 					mm[k] = true
 				}
 				for _, k := range op.False {
-					mm[k] = false
+					if k != "+mixed" {
+						mm[k] = false
+					}
 				}
 				args = []any{mm}
-			} else {
+			default:
 				for _, k := range op.Keys {
 					args = append(args, k)
 				}
@@ -366,6 +381,9 @@ func genC16(rt *rapid.T, maxOps int) c16Case {
 			sel := rapid.SliceOfNDistinct(rapid.SampledFrom(ks), 1, len(ks), rapid.ID[string]).Draw(rt, "keys")
 			op := c16Op{Op: kind, Src: src, Keys: sel, AsMap: rapid.Bool().Draw(rt, "asmap")}
 			if op.AsMap {
+				if len(sel) > 1 && rapid.Bool().Draw(rt, "mixed") {
+					op.False = append(op.False, "+mixed")
+				}
 				for _, k := range ks {
 					in := false
 					for _, s := range sel {
